@@ -52,6 +52,7 @@ type Group struct {
 	Shards  []Shard `json:"shards"`
 	Alive   []int   `json:"alive"`
 	Born    int     `json:"born"` // index of the point whose routing created the group, -1 = existed before
+	Resh    bool    `json:"resh"` // created by Data.ReSharding before the batch that starts at point Born
 }
 
 type Point struct {
@@ -73,6 +74,13 @@ type Point struct {
 type Target struct {
 	GID  uint64   `json:"gid"`
 	SIDs []uint64 `json:"sids"`
+}
+
+// HintRes: what mapMstShards consults for the query carrying a series hint
+type HintRes struct {
+	Hint    int      `json:"hint"` // 1 full_series, 2 specific_series
+	Targets []Target `json:"targets"`
+	Err     string   `json:"err"` // error or panic text, "" = none
 }
 
 type Ver struct {
@@ -97,6 +105,15 @@ type Alter struct {
 	M  int      `json:"m"`
 	SK []string `json:"sk"`
 }
+// Reshard: Data.ReSharding (-> CreateShardGroupWithBounds) of the newest shard group before the batch starting at point At
+type Reshard struct {
+	At     int      `json:"at"`
+	Bounds []string `json:"bounds"` // split points: shard keys (measurement name with version + ",k=v"...), sorted, distinct
+	Mode   int      `json:"mode"`   // how the split time is chosen inside the newest group (0 middle, 1 start, 2 time of the previous point)
+	Split  int64    `json:"split"`  // the split time used (output)
+	Done   bool     `json:"done"`   // output: the resharding was carried out
+}
+
 type Cfg struct {
 	Msts    []MstCfg `json:"msts"`
 	DBSK    []string `json:"dbsk"`  // DatabaseInfo.ShardKey.ShardKey (CREATE DATABASE .. WITH SHARDKEY), null = none
@@ -115,6 +132,7 @@ type Case struct {
 	Cfg      Cfg           `json:"cfg"`
 	QM       int           `json:"qm"`    // measurement the query reads
 	Alter    *Alter        `json:"alter"` // ALTER ... SHARDKEY between two batches, or null
+	Reshard  *Reshard      `json:"reshard"` // re-sharding of a range-sharded policy between two batches, or null
 	HasCond  bool          `json:"hascond"`
 	Cond     *Node         `json:"cond"`
 	NLeaf    int           `json:"nleaf"`
@@ -126,6 +144,7 @@ type Case struct {
 	QGroups  []uint64      `json:"qgroups"`
 	Targets  []Target      `json:"targets"`
 	Mapped   []uint64      `json:"mapped"` // shard ids ClusterShardMapper.mapMstShards consults
+	Hints    []HintRes     `json:"hints"`  // the same query with the full_series / specific_series hint
 	Oracle   []string      `json:"oracle"`
 }
 
@@ -136,6 +155,7 @@ type mclient struct {
 	data    *meta.Data
 	offline map[int]bool
 	born    map[uint64]int
+	resh    map[uint64]bool
 	cur     int     // default creator index (-1 = set-up)
 	curBase int     // index of the first point of the running batch
 	times   []int64 // timestamps of the rows of the running batch
